@@ -231,6 +231,11 @@ func (n *Namespace) add(c *serverConn, auth json.RawMessage) (*serverSocket, err
 }
 
 func (n *Namespace) doConnect(socket *serverSocket) error {
+	// From the moment the socket can be found, in the namespace and in its connection, until it
+	// is connected, a request to close it has to wait. Otherwise `Connected` says no, and a DISCONNECT
+	// packet that comes right behind the CONNECT packet (or DisconnectSockets, or Close) is dropped
+	// although the socket is about to be connected. `onConnect` releases the mutex.
+	socket.connectedMu.Lock()
 	n.sockets.set(socket)
 
 	// The connection must know about the socket before the CONNECT packet is sent.
